@@ -24,8 +24,15 @@ External (inputs, never axioms): `np.log10` (the model receives the list `logs =
 list is replaced by `[1.]`, i.e. `logs = [0]`), the selection of the features from `poles()` / `zeros()` (done by the
 harness exactly as the code does it), `10 ** x` of `np.logspace` (the harness applies it to the model's exponents).
 `np.rint` rounds half to even: `roundHalfEven` of `Model/Nyquist.lean`.
+
+Timebase (`sys.dt` in {`None`, `0`, `True`, `dt > 0`}): which branch of `_default_frequency_range` selects the features
+of a system (lines 2779-2808), whether `nyquist_response` cuts the grid at the Nyquist frequency (1362-1369) and whether
+it takes the poles as s-plane poles (1381) are decided by `sys.isctime()` / `sys.isdtime(strict=True)`
+(`DtPred.isctime / isdtime` of `Model/DtPred.lean`, proved equal to the source text by C05): `featureBranch`,
+`nyquistFreq`, `polesInSPlane` below.
 -/
 import CtrlVerif.Model.Nyquist
+import CtrlVerif.Model.DtPred
 
 namespace CtrlVerif.Nyquist
 
@@ -82,5 +89,47 @@ def defaultOmega (npts : ℕ) (nyq : Option K) (om : List K) : Except Err (List 
   match nyq with
   | none => pure o
   | some f => pure (truncNyquist f o)
+
+/-! ### the timebase of the loop -/
+
+/-- the branch of the `try:` block of `_default_frequency_range` (lines 2779-2808) a system takes -/
+inductive FeatureBranch where
+  /-- `if sys.isctime():` features = |poles|, |zeros|, those at the origin removed -/
+  | continuous
+  /-- `elif sys.isdtime(strict=True):` `freq_interesting += [0.9 pi/dt]`, features = `|log z / (j dt)|` -/
+  | discrete
+  /-- `else: raise NotImplementedError` (swallowed): the system contributes no feature at all -/
+  | skipped
+  deriving DecidableEq, Repr
+
+/-- lines 2779 / 2787 / 2805, in the code's order -/
+def featureBranch (dt : Dt) : FeatureBranch :=
+  if DtPred.isctime false dt then .continuous
+  else if DtPred.isdtime true dt then .discrete
+  else .skipped
+
+/-- the number `sys.dt` in `math.pi / sys.dt` (`True` is `1`) -/
+def dtValue : Dt → K
+  | .dtrue => 1
+  | .disc h => (h : K)
+  | _ => 0
+
+/-- `nyquist_response` lines 1362-1364: `if sys.isdtime(strict=True): nyq_freq = math.pi / sys.dt`; `none`: the grid is
+not cut (`pi` = `math.pi` is a parameter) -/
+def nyquistFreq (pi : K) (dt : Dt) : Option K :=
+  if DtPred.isdtime true dt then some (pi / dtValue dt) else none
+
+/-- `nyquist_response` line 1381: `if sys.isctime(): splane_poles = sys.poles()` (otherwise `log(z)/dt`) -/
+def polesInSPlane (dt : Dt) : Bool := DtPred.isctime false dt
+
+/-- `omega_sys` of a system with timebase `dt` (default arguments) -/
+def defaultOmegaDt (pi : K) (dt : Dt) (npts : ℕ) (om : List K) : Except Err (List K) :=
+  defaultOmega npts (nyquistFreq pi dt) om
+
+/-- the timebase of a loop formed as a product / series of parts (`common_timebase` folded from the left, as `__mul__`
+does), then the three decisions -/
+def loopTimebase : List Dt → Except Err Dt
+  | [] => .ok .none
+  | d :: t => t.foldl (fun acc x => common' acc (.ok x)) (.ok d)
 
 end CtrlVerif.Nyquist
